@@ -92,3 +92,25 @@ K('C07.e', harness='C07/getters.cpp', entry='k_getters', tiers=('quick', 'thorou
        'each equals the table content; mutually inverse on every state satisfying I',
   out='negative rank arguments of getColIdxByLocator (documented as starting from 0; the code indexes the list without a lower bound check); names',
   **{**_COMMON, 'stubs': _C07STUBS + ['ELoc::fromValue(v) -> harness-owned ELoc object with _value = v (the library looks it up in the static std::map)']})
+
+
+# ---------------------------------------------------------------- C07.n name uniqueness: correctNamesForDuplicates with the real std::string code (harness/C07/names.cpp)
+# pass pipeline without instcombine (it rewrites the short memcpy of the string code into integer loads/stores over the characters, as C09.g) and without
+# simplifycfg (no if-conversion: every combination of names is a path of its own, explored without state merging, so that all string contents are concrete)
+_NAMES_PASSES = 'function(sroa,early-cse),cgscc(inline),function(sroa,early-cse,adce),globaldce'
+for _n, _tiers in ((2, ('quick', 'thorough')), (3, ('quick', 'thorough')), (4, ('quick', 'thorough')), (5, ('thorough',))):
+    K('C07.n.%d' % _n, property='C07', engine='symex', harness='C07/names.cpp', entries=['k_names', 'k_newname'], tiers=_tiers,
+      tus=['src/Basic/String.cpp'], defines={'all': {'VF_N': _n}}, passes=_NAMES_PASSES,
+      symex={'no_merge': True, 'max_steps': 50000000},
+      bounds={'quick': 'list of exactly %d names, each chosen independently in the family "v", "v.1", "v.1.1", "v.2", "w" (all %d combinations); renaming: the same with one position (any) holding the new name and the other names pairwise distinct' % (_n, 5 ** _n)},
+      timeout_ms={'quick': 60000, 'thorough': 300000}, validate={'quick': 40, 'thorough': 80},
+      what='REAL correctNamesForDuplicates (the name-uniqueness step of Db::addColumns* / setName(s) / the Db loaders) with the real std::string and VectorT<String> code '
+           '(comparison, assignment, copy-on-write detach): the list keeps its length, all names are pairwise distinct afterwards, the first name and every name that '
+           'clashes with no name before it are unchanged, a corrected name is its original followed by a suffix; REAL correctNewNameForDuplicates(list, rank) (Db::setNameByColIdx / setNameByUID) '
+           'on a table whose other names are unique: the other names are unchanged, all names pairwise distinct afterwards, a new name that clashes with none is unchanged',
+      out='names outside the family, longer lists; the text of the version suffix (formatting through std::stringstream); '
+          'the callers in Db.cpp (name table of the Db: integer model in C07.b/c)',
+      assumptions=['names are short (at most 15 characters with their suffixes: small-string storage)'],
+      stubs=['solver build only (the native build runs the library function and libc):',
+             'incrementStringVersion(string, rank, delim) -> string + delim + decimal digit of rank (the real one formats through a std::stringstream)',
+             'strlen, memcmp: byte loops'])
